@@ -467,6 +467,42 @@ void vf_case(uint64_t idx, vf_rng *r)
 			views[vi].mt->_vptr->unref(views[vi].mt);
 			views[vi] = views[--nviews];
 		}
+		else if ((k >= 97 && k < 99) || (k < 97 && vf_chance(r, 1, 4))) {
+			/* assignment the store refuses (value without type / with a type nobody registered,
+			 * no text form): the map must be exactly as before */
+			static const int dummy = 0;
+			int untyped = vf_chance(r, 1, 2);
+			MPT_STRUCT(value) d = MPT_VALUE_INIT(0, 0);
+			MPT_STRUCT(path) p = MPT_PATH_INIT;
+			MPT_INTERFACE(config) *cfg = global_cfg();
+			struct view *v = (nviews && vf_chance(r, 1, 3)) ? &views[vf_below(r, (uint32_t) nviews)] : 0;
+			int from = 0;
+			if (!untyped) { d._type = 0xfe; d._addr = &dummy; }
+			if (v) {
+				const struct entry *b = &U[v->base];
+				int cand[MAXU], nc = 0;
+				for (int j = 0; j < nu; j++) if (is_prefix(b, &U[j]) && U[j].n > b->n) cand[nc++] = j;
+				if (!nc) v = 0;
+				else { t = cand[vf_below(r, (uint32_t) nc)]; x = &U[t]; from = b->n; cfg = v->cfg; }
+			}
+			render(pbuf, x, from, x->n, sep);
+			p.sep = (char) sep;
+			mpt_path_set(&p, pbuf, -1);
+			snprintf(what, sizeof(what), "%sassign('%s', %s value)%s", v ? "view." : "", show(x), untyped ? "untyped" : "unregistered-type", x->exists ? "" : " [absent]");
+			vf_log("%s", what);
+			vf_at("config::assign");
+			int rc = cfg->_vptr->assign(cfg, &p, &d);
+			if (rc < 0) {
+				vf_count("config::assign:refused", 1);
+				if (!x->exists) vf_count("state:refused-on-absent-path", 1);
+				if (v) m_touch(v->base);   /* a view creates its base path before it looks at the value */
+			} else {
+				vf_count("config::assign:odd-value-accepted", 1);
+				m_touch(t);
+				mpt_config_set(0, (render(pbuf, x, 0, x->n, sep), pbuf), 0, sep, 0);
+				m_remove(t, 1);
+			}
+		}
 		else {
 			snprintf(what, sizeof(what), "query only");
 			audit_get(what);
